@@ -6,7 +6,7 @@
    balance equals height right - height left and lies in [-1,1]).
    The reference map is Spec.v: [map_step_reject] (tree, table: a duplicate key
    is rejected) and [map_step_trie] (trie: insertion overwrites). *)
-From MV Require Import C09.Proofs.
+From MV Require Import C09.Proofs C09.ProofsGen C09.ProofsCb gen.Params_C09.
 Local Open Scope Z_scope.
 
 (* Insertion (descent, retracing, single/double rotations with the code's
@@ -231,3 +231,454 @@ Theorem hht_links_consistent : forall hash t ft ch, ht_rep hash t ft ch ->
        hht_idx hash t (ckey (th_nodes t (eid e))) = i).
 Proof. exact ht_rep_links. Qed.
 Print Assumptions hht_links_consistent.
+
+(* ====================================================================== *)
+(* Second tie (DESIGN.md 4.4): gen/Params_C09.v holds the decision content of avl_tree.c, hash_table.c
+   and trie.c re-derived from the C text of this run (lib/props/c09_slice.py: symbolic execution of one
+   segment of a public function; helper functions inlined; tests that do not influence the outcome
+   dropped).  Each gen_* definition equals the model's named decision function (Model.v, last section),
+   proved by shape-independent case analysis (C09/ProofsGen.v); and the models -- functional and heap
+   level -- are proved to factor through those functions.  ins_side_code / rem_side_code are the two
+   values of the C code's side flag, read off the sliced code. *)
+
+(* AVL, retracing after insert: ONE ITERATION of the loop (balance update of the node, stop / continue at the
+   parent and on which side, or rebalance with the rotation chosen and all balance fields it writes), as sliced
+   from muggle_avl_tree_insert of this run, is the model's decision function.  Inputs: balance fields of the node,
+   its children and inner grandchildren, the side that grew, parent present, node is its parent's left child. *)
+Theorem gen_avl_ins_step_matches_model : forall b sl lb rb lrb rlb hp il,
+  gen_avl_ins_step b (ins_side_code sl) lb rb lrb rlb hp il =
+  enc_step ins_side_code (ins_step_dec b sl lb rb lrb rlb hp il).
+Proof. exact gen_avl_ins_step_eq. Qed.
+Print Assumptions gen_avl_ins_step_matches_model.
+
+(* the same for the retracing loop of muggle_avl_tree_remove (continues after a rotation iff the depth decreased) *)
+Theorem gen_avl_rem_step_matches_model : forall b sl lb rb lrb rlb hp il,
+  gen_avl_rem_step b (rem_side_code sl) lb rb lrb rlb hp il =
+  enc_step rem_side_code (rem_step_dec b sl lb rb lrb rlb hp il).
+Proof. exact gen_avl_rem_step_eq. Qed.
+Print Assumptions gen_avl_rem_step_matches_model.
+
+(* the two side codes the C code uses are different (their values are read off the sliced code, so renumbering is harmless) *)
+Theorem gen_avl_side_codes_distinct : ins_side_code true <> ins_side_code false /\ rem_side_code true <> rem_side_code false.
+Proof. exact side_codes_distinct. Qed.
+Print Assumptions gen_avl_side_codes_distinct.
+
+(* find: comparator result -> found / left / right *)
+Theorem gen_avl_find_step_matches_model : forall c,
+  gen_avl_find_step c = cmp_dispatch c.
+Proof. exact gen_avl_find_step_eq. Qed.
+Print Assumptions gen_avl_find_step_matches_model.
+
+(* insert, one step of the descent: duplicate -> NULL / descend / hang the new node (parent link, balance 0) on that
+   side and start retracing there with that side *)
+Theorem gen_avl_ins_descend_matches_model : forall c hl hr,
+  gen_avl_ins_descend c hl hr = enc_descend (ins_descend_dec c hl hr).
+Proof. exact gen_avl_ins_descend_eq. Qed.
+Print Assumptions gen_avl_ins_descend_matches_model.
+
+(* remove, from the data-swap loop to the retracing loop: keep swapping while the node has a child; a leaf without
+   parent empties the tree; else the leaf is unlinked from the side it hangs on and retracing starts at the parent *)
+Theorem gen_avl_rem_enter_matches_model : forall hl hr hp il hk hv fk fv,
+  gen_avl_rem_enter hl hr hp il hk hv fk fv = enc_rem_enter (rem_enter_dec hl hr hp) il (avl_erase_dec hk hv fk fv).
+Proof. exact gen_avl_rem_enter_eq. Qed.
+Print Assumptions gen_avl_rem_enter_matches_model.
+
+(* hash table: the chain walked by find / put is that of bucket hash mod table_size *)
+Theorem gen_ht_find_idx_matches_model : forall hv ts,
+  0 <= hv < 2 ^ 64 -> 0 < ts < 2 ^ 64 -> gen_ht_find_idx hv ts = ht_index hv ts.
+Proof. exact gen_ht_find_idx_eq. Qed.
+Print Assumptions gen_ht_find_idx_matches_model.
+
+Theorem gen_ht_put_idx_matches_model : forall hv ts,
+  0 <= hv < 2 ^ 64 -> 0 < ts < 2 ^ 64 -> gen_ht_put_idx hv ts = ht_index hv ts.
+Proof. exact gen_ht_put_idx_eq. Qed.
+Print Assumptions gen_ht_put_idx_matches_model.
+
+(* one step along the chain: find returns the node with an equal key; put rejects a duplicate BEFORE linking and
+   links the new node at the head only when the chain is exhausted *)
+Theorem gen_ht_find_step_matches_model : forall hn c,
+  gen_ht_find_step hn c = ht_find_step_dec hn c.
+Proof. exact gen_ht_find_step_eq. Qed.
+Print Assumptions gen_ht_find_step_matches_model.
+
+Theorem gen_ht_put_step_matches_model : forall hn c,
+  gen_ht_put_step hn c = (ht_put_step_dec hn c, if ht_put_step_dec hn c =? 1 then 1 else 0).
+Proof. exact gen_ht_put_step_eq. Qed.
+Print Assumptions gen_ht_put_step_matches_model.
+
+(* muggle_hash_table_init: NULL comparator / capacity >= 2^31 rejected, table size < 8 becomes 10007, node pool iff capacity > 0 *)
+Theorem gen_ht_init_matches_model : forall ts cap has_cmp,
+  0 <= ts < 2 ^ 64 -> 0 <= cap < 2 ^ 64 ->
+  gen_ht_init ts cap has_cmp = enc_ht_init (ht_init_dec ts cap has_cmp).
+Proof. exact gen_ht_init_eq. Qed.
+Print Assumptions gen_ht_init_matches_model.
+
+(* trie: the empty key lives in children[0] of the root; one step of the walk ends at the NUL byte and indexes the
+   children with the key byte as an UNSIGNED char (the generated index is wrapu 8 of the plain char) *)
+Theorem gen_trie_find_entry_matches_model : forall ub,
+  0 <= ub <= 255 -> gen_trie_find_entry (schar ub) = trie_find_entry_dec ub.
+Proof. exact gen_trie_find_entry_eq. Qed.
+Print Assumptions gen_trie_find_entry_matches_model.
+
+Theorem gen_trie_find_step_matches_model : forall ub hc,
+  0 <= ub <= 255 -> gen_trie_find_step (schar ub) hc = trie_find_step_dec ub hc.
+Proof. exact gen_trie_find_step_eq. Qed.
+Print Assumptions gen_trie_find_step_matches_model.
+
+Theorem gen_trie_insert_entry_matches_model : forall ub hc,
+  0 <= ub <= 255 ->
+  gen_trie_insert_entry (schar ub) hc = enc_trie_insert (trie_insert_entry_dec ub hc).
+Proof. exact gen_trie_insert_entry_eq. Qed.
+Print Assumptions gen_trie_insert_entry_matches_model.
+
+Theorem gen_trie_insert_step_matches_model : forall ub hc,
+  0 <= ub <= 255 ->
+  gen_trie_insert_step (schar ub) hc = enc_trie_insert (trie_insert_step_dec ub hc).
+Proof. exact gen_trie_insert_step_eq. Qed.
+Print Assumptions gen_trie_insert_step_matches_model.
+
+(* the children array has the size the model's range check uses *)
+Theorem gen_trie_children_size_matches_model : gen_trie_children_size = trie_children_size /\
+  forall i, index_in_range i = (0 <=? i) && (i <? gen_trie_children_size).
+Proof. exact gen_trie_children_size_eq. Qed.
+Print Assumptions gen_trie_children_size_matches_model.
+
+(* The functional model factors through the decision functions: rotations, dispatch of rebalance, retracing steps,
+   comparator dispatch of find / insert. *)
+Theorem avl_rotate_left_factors : forall t1 xk xv xb t23 zk zv zb t4,
+  rotate_left (Node t1 xk xv xb (Node t23 zk zv zb t4)) =
+  let '(x, z, d) := rot_left_bal zb in (Node (Node t1 xk xv x t23) zk zv z t4, d).
+Proof. exact rotate_left_factors. Qed.
+Print Assumptions avl_rotate_left_factors.
+
+Theorem avl_rotate_right_factors : forall t4 zk zv zb t23 xk xv xb t1,
+  rotate_right (Node (Node t4 zk zv zb t23) xk xv xb t1) =
+  let '(x, z, d) := rot_right_bal zb in (Node t4 zk zv z (Node t23 xk xv x t1), d).
+Proof. exact rotate_right_factors. Qed.
+Print Assumptions avl_rotate_right_factors.
+
+Theorem avl_rotate_right_left_factors : forall t1 xk xv xb t2 yk yv yb t3 zk zv zb t4,
+  rotate_right_left (Node t1 xk xv xb (Node (Node t2 yk yv yb t3) zk zv zb t4)) =
+  let '(x, z) := rot_right_left_bal yb in Node (Node t1 xk xv x t2) yk yv 0 (Node t3 zk zv z t4).
+Proof. exact rotate_right_left_factors. Qed.
+Print Assumptions avl_rotate_right_left_factors.
+
+Theorem avl_rotate_left_right_factors : forall t4 zk zv zb t3 yk yv yb t2 xk xv xb t1,
+  rotate_left_right (Node (Node t4 zk zv zb (Node t3 yk yv yb t2)) xk xv xb t1) =
+  let '(x, z) := rot_left_right_bal yb in Node (Node t4 zk zv z t3) yk yv 0 (Node t2 xk xv x t1).
+Proof. exact rotate_left_right_factors. Qed.
+Print Assumptions avl_rotate_left_right_factors.
+
+Theorem avl_rebalance_factors : forall l k v b r,
+  let t := Node l k v b r in
+  let c := rebalance_case b (root_bal l) (root_bal r) in
+  rebalance t = if c =? 1 then rotate_right t else if c =? 2 then (rotate_left_right t, true)
+                else if c =? 3 then rotate_left t else if c =? 4 then (rotate_right_left t, true) else (t, false).
+Proof. exact rebalance_factors. Qed.
+Print Assumptions avl_rebalance_factors.
+
+Theorem avl_grow_factors : forall sl l k v b r,
+  grow sl (Node l k v b r) =
+  let b' := retrace_ins_bal b sl in
+  let a := retrace_ins_act b' in
+  if a =? 0 then (Node l k v b' r, false) else if a =? 1 then (Node l k v b' r, true)
+  else (fst (rebalance (Node l k v b' r)), false).
+Proof. exact grow_factors. Qed.
+Print Assumptions avl_grow_factors.
+
+Theorem avl_shrink_factors : forall sl l k v b r,
+  shrink sl (Node l k v b r) =
+  let b' := retrace_rem_bal b sl in
+  let a := retrace_rem_act b' in
+  if a =? 0 then (Node l k v b' r, false) else if a =? 1 then (Node l k v b' r, true)
+  else rebalance (Node l k v b' r).
+Proof. exact shrink_factors. Qed.
+Print Assumptions avl_shrink_factors.
+
+Theorem avl_find_factors_through_dispatch : forall x l k v b r,
+  avl_find x (Node l k v b r) =
+  let d := cmp_dispatch (cmpz x k) in
+  if d =? 0 then Some v else if d =? 1 then avl_find x l else avl_find x r.
+Proof. exact avl_find_factors. Qed.
+Print Assumptions avl_find_factors_through_dispatch.
+
+Theorem avl_ins_factors_through_dispatch : forall x xv l k v b r,
+  ins x xv (Node l k v b r) =
+  let d := cmp_dispatch (cmpz x k) in
+  if d =? 0 then (Node l k v b r, false, false)
+  else if d =? 1 then
+    let '(l', g, i) := ins x xv l in
+    if g then let (t', g') := grow true (Node l' k v b r) in (t', g', i) else (Node l' k v b r, false, i)
+  else
+    let '(r', g, i) := ins x xv r in
+    if g then let (t', g') := grow false (Node l k v b r') in (t', g', i) else (Node l k v b r', false, i).
+Proof. exact ins_factors. Qed.
+Print Assumptions avl_ins_factors_through_dispatch.
+
+(* The pointer programs of ModelHeap.v factor through the same decision functions. *)
+Theorem havl_rotate_left_factors : forall h root x z,
+  hr (h x) = Some z ->
+  exists h1 root1, (forall w, hb (h1 w) = hb (h w)) /\
+    hrotate_left h root x = let '(xb, zb, d) := rot_left_bal (hb (h z)) in Some (set_b (set_b h1 x xb) z zb, root1, d).
+Proof. exact hrotate_left_factors. Qed.
+Print Assumptions havl_rotate_left_factors.
+
+Theorem havl_rotate_right_factors : forall h root x z,
+  hl (h x) = Some z ->
+  exists h1 root1, (forall w, hb (h1 w) = hb (h w)) /\
+    hrotate_right h root x = let '(xb, zb, d) := rot_right_bal (hb (h z)) in Some (set_b (set_b h1 x xb) z zb, root1, d).
+Proof. exact hrotate_right_factors. Qed.
+Print Assumptions havl_rotate_right_factors.
+
+Theorem havl_rotate_right_left_factors : forall h root x z y,
+  hr (h x) = Some z -> hl (h z) = Some y ->
+  exists h1 root1, (forall w, hb (h1 w) = hb (h w)) /\
+    hrotate_right_left h root x =
+    let '(xb, zb) := rot_right_left_bal (hb (h y)) in Some (set_b (set_b (set_b h1 x xb) z zb) y 0, root1).
+Proof. exact hrotate_right_left_factors. Qed.
+Print Assumptions havl_rotate_right_left_factors.
+
+Theorem havl_rotate_left_right_factors : forall h root x z y,
+  hl (h x) = Some z -> hr (h z) = Some y ->
+  exists h1 root1, (forall w, hb (h1 w) = hb (h w)) /\
+    hrotate_left_right h root x =
+    let '(xb, zb) := rot_left_right_bal (hb (h y)) in Some (set_b (set_b (set_b h1 x xb) z zb) y 0, root1).
+Proof. exact hrotate_left_right_factors. Qed.
+Print Assumptions havl_rotate_left_right_factors.
+
+Theorem havl_rebalance_factors : forall h root x l r,
+  hl (h x) = Some l -> hr (h x) = Some r ->
+  let c := rebalance_case (hb (h x)) (hb (h l)) (hb (h r)) in
+  hrebalance h root x =
+  if c =? 1 then hrotate_right h root x
+  else if c =? 2 then match hrotate_left_right h root x with Some (h', r') => Some (h', r', true) | None => None end
+  else if c =? 3 then hrotate_left h root x
+  else if c =? 4 then match hrotate_right_left h root x with Some (h', r') => Some (h', r', true) | None => None end
+  else Some (h, root, false).
+Proof. exact hrebalance_factors. Qed.
+Print Assumptions havl_rebalance_factors.
+
+Theorem havl_retrace_ins_factors : forall f h root node sl,
+  hretrace_ins (S f) h root node sl =
+  let b' := retrace_ins_bal (hb (h node)) sl in
+  let h1 := set_b h node b' in
+  let a := retrace_ins_act b' in
+  if a =? 0 then Some (h1, root)
+  else if a =? 1 then
+    match hp (h1 node) with
+    | Some p => hretrace_ins f h1 root p (ptr_is (hl (h1 p)) node)
+    | None => Some (h1, root)
+    end
+  else match hrebalance h1 root node with Some (h', root', _) => Some (h', root') | None => None end.
+Proof. exact hretrace_ins_factors. Qed.
+Print Assumptions havl_retrace_ins_factors.
+
+Theorem havl_retrace_rem_factors : forall f h root n sl,
+  hretrace_rem (S f) h root (Some n) sl =
+  let b' := retrace_rem_bal (hb (h n)) sl in
+  let h1 := set_b h n b' in
+  let a := retrace_rem_act b' in
+  if a =? 0 then Some (h1, root)
+  else if a =? 1 then
+    match hp (h1 n) with
+    | Some p => hretrace_rem f h1 root (Some p) (ptr_is (hl (h1 p)) n)
+    | None => Some (h1, root)
+    end
+  else
+    let parent := hp (h1 n) in
+    let side := match parent with Some p => ptr_is (hl (h1 p)) n | None => sl end in
+    match hrebalance h1 root n with
+    | Some (h', root', true) => hretrace_rem f h' root' parent side
+    | Some (h', root', false) => Some (h', root')
+    | None => None
+    end.
+Proof. exact hretrace_rem_factors. Qed.
+Print Assumptions havl_retrace_rem_factors.
+
+Theorem havl_find_factors : forall f h n x,
+  hfind_loop (S f) h (Some n) x =
+  let d := cmp_dispatch (cmpz x (hk (h n))) in
+  if d =? 0 then Some (Some n) else if d =? 1 then hfind_loop f h (hl (h n)) x else hfind_loop f h (hr (h n)) x.
+Proof. exact hfind_loop_factors. Qed.
+Print Assumptions havl_find_factors.
+
+Theorem havl_descend_factors : forall f h next n x,
+  hdescend (S f) h next n x =
+  let a := ins_descend_dec (cmpz x (hk (h n))) (is_some (hl (h n))) (is_some (hr (h n))) in
+  if a =? 0 then Some None
+  else if a =? 1 then match hl (h n) with Some c => hdescend f h next c x | None => None end
+  else if a =? 2 then match hr (h n) with Some c => hdescend f h next c x | None => None end
+  else if a =? 3 then Some (Some (set_l (hupd h next zero_node) n (Some next), n, true))
+  else Some (Some (set_r (hupd h next zero_node) n (Some next), n, false)).
+Proof. exact hdescend_factors. Qed.
+Print Assumptions havl_descend_factors.
+
+Theorem havl_remove_enter_factors : forall s node,
+  let h := hheap s in
+  let a := rem_enter_dec (is_some (hl (h node))) (is_some (hr (h node))) (is_some (hp (h node))) in
+  (a <> 0 -> hswap_down (S (hnext s)) h node = Some (h, node)) /\
+  (a = 1 -> hnext s <> O -> havl_remove s node = Some (mkst h None (hnext s))) /\
+  (a = 2 -> hnext s <> O -> forall parent, hp (h node) = Some parent ->
+     havl_remove s node =
+     match hretrace_rem (S (hnext s)) (relink h (Some parent) node None) (hroot s) (Some parent)
+             (ptr_is (hl (h parent)) node) with
+     | Some (h', root') => Some (mkst h' root' (hnext s))
+     | None => None
+     end).
+Proof. exact havl_remove_factors. Qed.
+Print Assumptions havl_remove_enter_factors.
+
+(* Hash table and trie models factor through their decision functions. *)
+Theorem ht_index_factors : forall hash t k,
+  ht_idx hash t k = Z.to_nat (ht_index (hash k) (ht_size t)).
+Proof. exact ht_idx_factors. Qed.
+Print Assumptions ht_index_factors.
+
+Theorem hht_index_factors : forall hash t k,
+  hht_idx hash t k = Z.to_nat (ht_index (hash k) (th_size t)).
+Proof. exact hht_idx_factors. Qed.
+Print Assumptions hht_index_factors.
+
+Theorem ht_init_size_factors : forall ts,
+  ht_size (ht_init ts) = ht_table_size ts /\ th_size (hht_init ts) = ht_table_size ts.
+Proof. exact ht_init_factors. Qed.
+Print Assumptions ht_init_size_factors.
+
+Theorem ht_init_rules_accept_driver_inputs : forall ts cap,
+  0 <= cap < 2147483648 ->
+  ht_init_dec ts cap true = (true, ht_size (ht_init ts), 0 <? cap).
+Proof. exact ht_init_dec_ok. Qed.
+Print Assumptions ht_init_rules_accept_driver_inputs.
+
+Theorem ht_chain_find_factors : forall k k' v r,
+  chain_find k ((k', v) :: r) = if ht_find_step_dec true (cmpz k' k) =? 1 then Some v else chain_find k r.
+Proof. exact chain_find_factors. Qed.
+Print Assumptions ht_chain_find_factors.
+
+Theorem hht_chain_find_factors : forall f nodes x k,
+  hchain_find (S f) nodes (Some x) k =
+  let a := ht_find_step_dec true (cmpz (ckey (nodes x)) k) in
+  if a =? 1 then Some (Some x) else hchain_find f nodes (cnext (nodes x)) k.
+Proof. exact hchain_find_factors. Qed.
+Print Assumptions hht_chain_find_factors.
+
+Theorem ht_put_scan_factors : forall hash t k v,
+  ht_put hash t k v =
+  match chain_find k (nth (ht_idx hash t k) (ht_buckets t) []) with
+  | Some _ => (t, false)
+  | None => ({| ht_size := ht_size t;
+                ht_buckets := upd_nth (ht_idx hash t k) ((k, v) :: nth (ht_idx hash t k) (ht_buckets t) []) (ht_buckets t) |}, true)
+  end /\
+  (forall hn c, (ht_put_step_dec hn c =? 0) = (ht_find_step_dec hn c =? 1)) /\
+  (forall hn c, (ht_put_step_dec hn c =? 1) = (ht_find_step_dec hn c =? 0)).
+Proof. exact ht_put_factors. Qed.
+Print Assumptions ht_put_scan_factors.
+
+Theorem trie_walk_factors : forall t ub rest,
+  ub <> 0 ->
+  walk t (ub :: rest) =
+  let '(a, i) := trie_find_step_dec ub (is_some (cget (byte_index ub) (t_children t))) in
+  if a =? 1 then match cget i (t_children t) with Some ch => walk ch rest | None => None end else None.
+Proof. exact walk_factors. Qed.
+Print Assumptions trie_walk_factors.
+
+Theorem trie_ins_walk_factors : forall t ub rest v,
+  ub <> 0 ->
+  ins_walk t (ub :: rest) v =
+  let '(a, ig, created, iset) := trie_insert_step_dec ub (is_some (cget (byte_index ub) (t_children t))) in
+  let ch := match cget ig (t_children t) with Some ch => ch | None => trie_empty end in
+  TNode (t_data t) (cset (if created then iset else ig) (ins_walk ch rest v) (t_children t)).
+Proof. exact ins_walk_factors. Qed.
+Print Assumptions trie_ins_walk_factors.
+
+Theorem trie_entry_factors_through_dispatch : forall root,
+  trie_find_node root [] = cget (snd (trie_find_entry_dec 0)) (t_children root) /\
+  (forall ub rest, ub <> 0 -> trie_find_entry_dec ub = (0, 0) /\ trie_find_node root (ub :: rest) = walk root (ub :: rest)) /\
+  (forall v, trie_insert root [] v =
+     let ch := match cget 0 (t_children root) with Some ch => ch | None => trie_empty end in
+     TNode (t_data root) (cset 0 (TNode (Some v) (t_children ch)) (t_children root))).
+Proof. exact trie_entry_factors. Qed.
+Print Assumptions trie_entry_factors_through_dispatch.
+
+(* With all five nodes present (X, its children L, R, the inner grandchildren LR, RL; [five] builds that tree
+   around arbitrary outer subtrees, [build5] the tree a rotation case leaves): Model.rebalance / grow / shrink
+   produce exactly the tree and flag the decision functions dictate. *)
+Theorem avl_rebalance_is_rebalance_dec : forall ll lrl lrr rll rlr rr k v lk lv rk rv lrk lrv rlk rlv b lb rb lrb rlb,
+  rebalance (five ll lrl lrr rll rlr rr k v lk lv rk rv lrk lrv rlk rlv (b, lb, rb, lrb, rlb)) =
+  let '(c, bs, d) := rebalance_dec b lb rb lrb rlb in (build5 ll lrl lrr rll rlr rr k v lk lv rk rv lrk lrv rlk rlv c bs, d).
+Proof. exact rebalance_five. Qed.
+Print Assumptions avl_rebalance_is_rebalance_dec.
+
+Theorem avl_grow_is_ins_step : forall ll lrl lrr rll rlr rr k v lk lv rk rv lrk lrv rlk rlv sl b lb rb lrb rlb,
+  grow sl (five ll lrl lrr rll rlr rr k v lk lv rk rv lrk lrv rlk rlv (b, lb, rb, lrb, rlb)) =
+  let '(bs, c, _, _) := ins_step_dec b sl lb rb lrb rlb true true in
+  (build5 ll lrl lrr rll rlr rr k v lk lv rk rv lrk lrv rlk rlv c bs, retrace_ins_act (retrace_ins_bal b sl) =? 1).
+Proof. exact grow_five. Qed.
+Print Assumptions avl_grow_is_ins_step.
+
+Theorem avl_shrink_is_rem_step : forall ll lrl lrr rll rlr rr k v lk lv rk rv lrk lrv rlk rlv sl b lb rb lrb rlb,
+  shrink sl (five ll lrl lrr rll rlr rr k v lk lv rk rv lrk lrv rlk rlv (b, lb, rb, lrb, rlb)) =
+  let '(bs, c, up, _) := rem_step_dec b sl lb rb lrb rlb true true in (build5 ll lrl lrr rll rlr rr k v lk lv rk rv lrk lrv rlk rlv c bs, up).
+Proof. exact shrink_five. Qed.
+Print Assumptions avl_shrink_is_rem_step.
+
+(* ====================================================================== *)
+(* Free callbacks (NULL = borrowed data) and muggle_hash_table_clear (C09/ProofsCb.v).  [opf] is an operation
+   with the caller's choice of callbacks for a removal; a step reports, besides its result, whether the key /
+   value block of the removed association went through its callback.  For EVERY choice at every removal each
+   structure answers like the reference map, releases exactly when the key was bound and the callback was
+   passed, and reaches the state the callback-free model reaches. *)
+Theorem avl_refines_map_cb : forall ops,
+  snd (runf avl_step_cb Leaf ops) = snd (runf (map_cb (map_step_reject Z.eq_dec)) empty_map ops) /\
+  fst (runf avl_step_cb Leaf ops) = fst (run avl_step Leaf (map erase_f ops)) /\
+  avl_inv (fst (runf avl_step_cb Leaf ops)).
+Proof. exact avl_refines_cb. Qed.
+Print Assumptions avl_refines_map_cb.
+
+Theorem avl_remove_exact_for_every_callback_choice : forall fk fv k t, avl_inv t ->
+  let '(t', (r, (rk, rv))) := avl_step_cb t (OpF (Rem k) fk fv) in
+  t' = fst (avl_remove k t) /\ r = RRem (is_some (avl_find k t)) /\
+  rk = (is_some (avl_find k t) && fk) /\ rv = (is_some (avl_find k t) && fv) /\
+  forall y, avl_find y t' = if y =? k then None else avl_find y t.
+Proof. exact avl_remove_cb_exact. Qed.
+Print Assumptions avl_remove_exact_for_every_callback_choice.
+
+Theorem ht_refines_map_cb : forall hash ts ops,
+  snd (runf (ht_step_cb hash) (ht_init ts) ops) = snd (runf (map_cb (map_step_reject Z.eq_dec)) empty_map ops) /\
+  fst (runf (ht_step_cb hash) (ht_init ts) ops) = fst (run (ht_step hash) (ht_init ts) (map erase_f ops)).
+Proof. exact ht_refines_cb. Qed.
+Print Assumptions ht_refines_map_cb.
+
+(* after any history, clear (any callbacks) empties the table, calls each passed callback once per stored entry,
+   and every later history is answered like a map that starts empty *)
+Theorem ht_clear_then_reuse : forall hash ts ops1 fk fv ops2,
+  let t1 := fst (runf (ht_step_cb hash) (ht_init ts) ops1) in
+  let '(t2, n, (nk, nv)) := ht_clear_cb fk fv t1 in
+  n = ht_count t1 /\ nk = (if fk then n else 0) /\ nv = (if fv then n else 0) /\
+  (forall y, ht_find hash t2 y = None) /\
+  snd (runf (ht_step_cb hash) t2 ops2) = snd (runf (map_cb (map_step_reject Z.eq_dec)) empty_map ops2).
+Proof. exact ht_clear_reuse. Qed.
+Print Assumptions ht_clear_then_reuse.
+
+Theorem trie_refines_map_cb : forall ops, Forall valid_opf ops ->
+  map obs_cb (snd (runf trie_step_cb trie_empty ops)) = snd (runf map_cb_trie empty_map ops) /\
+  fst (runf trie_step_cb trie_empty ops) = fst (run trie_step trie_empty (map erase_f ops)).
+Proof. exact trie_refines_cb. Qed.
+Print Assumptions trie_refines_map_cb.
+
+(* the removal paths of the C code, sliced on this run: the callbacks that are passed are called with the node's
+   key / value (data), nothing is called for a NULL callback, and the node is unlinked / its data cleared in
+   every case *)
+Theorem gen_ht_remove_matches_model : forall hk hv fk fv, gen_ht_remove hk hv fk fv = enc3 (ht_remove_dec hk hv fk fv).
+Proof. exact gen_ht_remove_eq. Qed.
+Print Assumptions gen_ht_remove_matches_model.
+
+Theorem gen_trie_remove_matches_model : forall ub hn f, 0 <= ub <= 255 ->
+  gen_trie_remove (schar ub) hn f = enc3 (trie_remove_dec hn f).
+Proof. exact gen_trie_remove_eq. Qed.
+Print Assumptions gen_trie_remove_matches_model.
+
+(* the comparator's magnitude is irrelevant: the dispatch (proved equal to the sliced code for every int) uses the sign only *)
+Theorem cmp_dispatch_uses_sign_only : forall c, cmp_dispatch c = cmp_dispatch (Z.sgn c).
+Proof. exact cmp_dispatch_sign. Qed.
+Print Assumptions cmp_dispatch_uses_sign_only.
